@@ -44,7 +44,7 @@ def answer (line : String) : String :=
     | "C01" => if String.ofList op == "morph" then EditM.handleMorph rest
                else if String.ofList op == "part" then Total.handlePart rest
                else if String.ofList op == "stages" then Stages.handle rest else EditM.handle rest
-    | "C17" => CharCat.handle rest
+    | "C17" => if op = "buffer".toList then CharCat.handleBuffer rest else CharCat.handle rest
     | "C08" => if op = "morphc".toList then EditAcc.handleMorphA rest
                else if op = "acc".toList then EditAcc.handleAcc rest
                else if op = "pyoff".toList then EditAcc.handlePyOff rest else EditG.handle rest
